@@ -184,6 +184,64 @@ def detached_evaluate(v, case, scratch, rng, explicit_defaults):
             v.bad(f"value/detached-evaluate/{how}", f"evaluate()={got!r:.200}, eager value {exp['value']!r:.200}", **w)
 
 
+def two_requests(v, case, scratch, rng, explicit_defaults, mode):
+    """Two lazy requests with the same inputs while ONE node cache is active (one construct_dag() block, or a pipeline cache
+    with cache=True functions): first an interior output, then an output downstream of it. The second deferred object shares
+    the nodes of the first: evaluating it invokes every needed function exactly once, and evaluating the first one afterwards
+    invokes nothing further."""
+    from pipefunc.lazy import construct_dag
+
+    cands = [o for o in daggen.all_outputs(case) if daggen.interior_names(case, o)]
+    if not cands:
+        return
+    out_b = rng.choice(cands)
+    out_a = rng.choice(sorted(daggen.interior_names(case, out_b)))
+    Kb = {r: f"v_{r}" for r in daggen.needed_roots(case, out_b)}
+    Ka = {r: Kb[r] for r in daggen.needed_roots(case, out_a) if r in Kb}
+    try:
+        exp_a = daggen.ref_eval(case, out_a, Ka, prefix="T")
+        exp_b = daggen.ref_eval(case, out_b, Kb, prefix="T")
+    except daggen.Missing:
+        return
+    if set(Ka) - exp_a["used"] or set(Kb) - exp_b["used"]:
+        return
+    w = dict(case=daggen.describe(case), first=[out_a, Ka], second=[out_b, Kb], node_cache=mode)
+    log = probes.new_log(scratch, f"lazyT{mode}")
+    strip = lambda n: n[1:] if n.startswith("T") else n  # noqa: E731
+    norm = lambda x: tuple(x) if isinstance(x, (list, tuple)) else x  # noqa: E731
+    try:
+        with quiet():
+            kw = {"lazy": True} if mode == "dag" else {"lazy": True, "cache_type": mode}
+            lp = daggen.build_pipeline(case, log=log, prefix="T", pipeline_kwargs=kw, explicit_defaults=explicit_defaults,
+                                       cache=(None if mode == "dag" else {f["name"] for f in case["funcs"]}))
+            if mode == "dag":
+                with construct_dag():
+                    ra = lp(out_a, **Ka)
+                    rb = lp(out_b, **Kb)
+            else:
+                ra = lp(out_a, **Ka)
+                rb = lp(out_b, **Kb)
+            early = probes.log_read(log)
+            got_b = rb.evaluate()
+            calls_b = [strip(c["f"]) for c in probes.log_read(log)]
+            got_a = ra.evaluate()
+            calls_ab = [strip(c["f"]) for c in probes.log_read(log)]
+    except Exception as e:  # noqa: BLE001
+        v.bad(exc_sig(e, f"two-requests/{mode}"), f"two lazy requests sharing a node cache raised {exc_msg(e)}", **w)
+        return
+    v.count(f"two_requests_sharing_nodes:{mode}")
+    if early:
+        v.bad(f"invoked-before-evaluate/two-requests/{mode}", f"{[c['f'] for c in early]} invoked before evaluate()", **w)
+    if norm(got_b) != norm(exp_b["value"]) or norm(got_a) != norm(exp_a["value"]):
+        v.bad(f"value/two-requests/{mode}", f"second={got_b!r:.160} (reference {exp_b['value']!r:.160}), first={got_a!r:.160} (reference {exp_a['value']!r:.160})", **w)
+    extra, miss = multiset_diff(calls_b, [strip(c) for c in exp_b["calls"]])
+    if extra or miss:
+        v.bad(f"duplicate-call/two-requests/{mode}" if extra and not miss else f"calls/two-requests/{mode}",
+              f"evaluate() of the second request: extra={extra} missing={miss}", **w)
+    elif len(calls_ab) != len(calls_b):
+        v.bad(f"duplicate-call/two-requests/{mode}/first-evaluated-afterwards", f"evaluating the first request afterwards invoked {calls_ab[len(calls_b):]} again", **w)
+
+
 def after_failed_evaluate(v, case, scratch, rng, explicit_defaults):
     outs = [o for o in daggen.all_outputs(case)]
     out = rng.choice(outs)
@@ -348,6 +406,7 @@ def run_case(desc):
             # pickled before its first evaluation: evaluate() must still give the eager value
             if i % 3 == 2:
                 detached_evaluate(v, case, scratch, rng, explicit_defaults=(i % 4 == 2))
+            two_requests(v, case, scratch, rng, explicit_defaults=(i % 4 == 2), mode=["dag", "simple", "dag", "lru"][i % 4])
             # a node whose function raised is not "evaluated": a second evaluate() of the same deferred object after a
             # transient fault must give the eager value, after a permanent fault it must raise again
             if i % 3 == 1:
@@ -384,6 +443,9 @@ def finalize(agg, tier, seed):
         floors.append(f"only {agg.classes.get('tuple_interior', 0)} DAGs with a tuple-output interior node (< 300)")
     if agg.counters.get("cross_context_graphs", 0) < 300:
         floors.append("fewer than 300 cross-context task graphs checked")
+    for m in ("dag", "simple", "lru"):
+        if agg.counters.get(f"two_requests_sharing_nodes:{m}", 0) < 50:
+            floors.append(f"only {agg.counters.get(f'two_requests_sharing_nodes:{m}', 0)} pairs of requests sharing nodes through {m} (< 50)")
     if agg.counters.get("task_graphs_checked", 0) < 1000:
         floors.append("fewer than 1000 task graphs checked")
     return floors, {}
